@@ -1,20 +1,20 @@
 package main
 
 import (
-	"syscall"
 	"encoding/json"
 	"fmt"
+	"github.com/uhppoted/uhppote-core/uhppote"
 	"os"
 	"path/filepath"
 	"sort"
 	"strings"
+	"syscall"
 	"time"
 
 	codec "github.com/uhppoted/uhppote-core/encoding/UTO311-L0x"
 	"github.com/uhppoted/uhppote-core/encoding/bcd"
 	"github.com/uhppoted/uhppote-core/messages"
 	"github.com/uhppoted/uhppote-core/types"
-
 )
 
 func init() { streams["zones"] = streamZones }
@@ -91,6 +91,11 @@ func fieldsOf(t time.Time) string {
 	return fmt.Sprintf("%d %d-%d-%d-%d-%d-%d", t.Unix(), t.Year(), int(t.Month()), t.Day(), t.Hour(), t.Minute(), t.Second())
 }
 
+// civilOf: the civil fields a value reports in its own Location
+func civilOf(t time.Time) string {
+	return fmt.Sprintf("%d-%d-%d-%d-%d-%d", t.Year(), int(t.Month()), t.Day(), t.Hour(), t.Minute(), t.Second())
+}
+
 // dateSites: the five ways a date value comes into being; all must agree
 func dateSites(y, m, d int) string {
 	return guard(func() string {
@@ -124,6 +129,17 @@ func dateSites(y, m, d int) string {
 		return out
 	})
 }
+
+// zones a controller may be configured with / a SetTime argument may carry (nil: none)
+var otherZones = func() []*time.Location {
+	out := []*time.Location{nil, time.UTC, time.FixedZone("east", 5*3600+45*60), time.FixedZone("west", -(9*3600 + 30*60))}
+	for _, n := range []string{"America/New_York", "Australia/Sydney", "Europe/Berlin"} {
+		if l, err := time.LoadLocation(n); err == nil {
+			out = append(out, l)
+		}
+	}
+	return out
+}()
 
 func streamZones(c *ctx) {
 	r := c.r
@@ -249,6 +265,34 @@ func streamZones(c *ctx) {
 					}
 					rec.mu.Unlock()
 				}
+				// ... and so must GetTime and SetTime, whatever time zone the controller is configured with and whatever
+				// Location the SetTime argument carries (the reply's digits are the civil time to report)
+				{
+					const dev = 405419896
+					tz := otherZones[(y+mo+d+h)%len(otherZones)]
+					devices := []uhppote.Device{{Name: "z", DeviceID: dev, Protocol: "udp", TimeZone: tz}}
+					ug, dg := newClient(devices, types.BroadcastAddr{})
+					bg, _ := codec.Marshal(messages.GetTimeResponse{SerialNumber: dev})
+					copy(bg[8:15], bcdBytes(fmt.Sprintf("%04d%02d%02d%02d%02d%02d", y, mo, d, h, mi, s)))
+					dg.Datagrams = [][]byte{bg}
+					if got, err := ug.GetTime(dev); err != nil {
+						res += " GETTIME:err"
+					} else if f := civilOf(time.Time(got.DateTime)); f != civilOf(t) {
+						res += " GETTIME:" + f
+					}
+					bs, _ := codec.Marshal(messages.SetTimeResponse{SerialNumber: dev})
+					copy(bs[8:15], bcdBytes(fmt.Sprintf("%04d%02d%02d%02d%02d%02d", y, mo, d, h, mi, s)))
+					dg.Datagrams = [][]byte{bs}
+					argLoc := otherZones[(y+mo+d+h+1)%len(otherZones)]
+					if argLoc == nil {
+						argLoc = time.UTC
+					}
+					if got, err := ug.SetTime(dev, time.Date(2024, 5, 6, 7, 8, 9, 0, argLoc)); err != nil {
+						res += " SETTIME:err"
+					} else if f := civilOf(time.Time(got.DateTime)); f != civilOf(t) {
+						res += " SETTIME:" + f
+					}
+				}
 				return res
 			})
 			w.Emit(fmt.Sprintf("zdt %s %s | %d %d %d %d %d %d", name, zs, y, mo, d, h, mi, s), out, tag, "zone/"+name)
@@ -272,6 +316,10 @@ func streamZones(c *ctx) {
 		for i := 0; i < n; i++ {
 			y, m, d := genYMD(r, 1900, 2037)
 			emitDT(y, m, d, r.Intn(24), r.Intn(60), r.Intn(60), "dt/random")
+		}
+		// civil times that do not exist in some OTHER zone (the zone a controller may be configured with)
+		for _, g := range [][6]int{{2021, 3, 14, 2, 30, 0}, {2021, 10, 3, 2, 15, 45}, {2021, 3, 28, 2, 30, 0}, {2024, 3, 10, 2, 0, 0}} {
+			emitDT(g[0], g[1], g[2], g[3], g[4], g[5], "dt/gap-of-another-zone")
 		}
 		// --- the zero date-time and the zero date survive a round trip in this zone
 		out := guard(func() string {
@@ -302,5 +350,5 @@ func streamZones(c *ctx) {
 		w.Emit(fmt.Sprintf("zzero %s %d", name, lmt), out, "zero-values", "zone/"+name)
 	}
 	time.Local = saved
-	w.Notes = append(w.Notes, fmt.Sprintf("zones stream: %d zones as the process-local zone (time.Local swapped in-process, IANA data from /usr/share/zoneinfo): every date 1900..2037 whose local midnight a transition removes (%d zone/day pairs) and its neighbours, random dates; ToDate / ParseDate / wire / JSON / SystemDate must agree and encode back to the same digits; date-times at 8 offsets around transitions (both offsets) and random; status system date+time recombination; zero Date / DateTime round trip", len(zones), nGap))
+	w.Notes = append(w.Notes, fmt.Sprintf("zones stream: %d zones as the process-local zone (time.Local swapped in-process, IANA data from /usr/share/zoneinfo): every date 1900..2037 whose local midnight a transition removes (%d zone/day pairs) and its neighbours, random dates; ToDate / ParseDate / wire / JSON / SystemDate must agree and encode back to the same digits; date-times at 8 offsets around transitions (both offsets) and random; status system date+time recombination, the same civil time through GetTime (controller configured with another time zone) and SetTime (argument in another Location); zero Date / DateTime round trip", len(zones), nGap))
 }
